@@ -16,6 +16,7 @@ def policyOf : String → Option Cfg
   | "plain" => some { hash := .none, err := .throwing }
   | "map" => some { vptrMap := true, err := .throwing }
   | "indirect" => some { hash := .fast, indirect := true }
+  | "indmix" => some { hash := .fast, indirect := true }
   | "proj" => some { hash := .checked, rtti := .projected }
   | "deferred" => some { hash := .checked, rtti := .deferred }
   | "backward" => some { hash := .fast, err := .backward }
